@@ -1115,6 +1115,183 @@ theorem steps_data_aux : ∀ (ms : List (String × Mesh α)) (s : RState Corner 
     simp [List.flatMap_cons, List.append_assoc]
 
 
+theorem getElem?_mid_aux {β : Type} (a b c : List β) (i : Nat) (h : i < b.length) :
+    (a ++ (b ++ c))[i + a.length]? = b[i]? := by
+  rw [List.getElem?_append_right (by omega)]
+  have : i + a.length - a.length = i := by omega
+  rw [this, List.getElem?_append_left h]
+
+theorem poolsAll_aux : ∀ (ms : List (String × Mesh α)) (av an : List (V3 α)) (at' : List (V2 α)),
+    PoolsAll (av ++ ms.flatMap (fun p => optList p.2.pos)) (an ++ ms.flatMap (fun p => optList p.2.nrm))
+      (at' ++ ms.flatMap (fun p => optList p.2.uv)) av.length at'.length an.length ms
+  | [], _, _, _ => trivial
+  | (name, m) :: rest, av, an, at' => by
+    refine ⟨⟨?_, ?_, ?_⟩, ?_⟩
+    · intro ps hps i hi
+      simp only [List.flatMap_cons, hps, optList]
+      exact getElem?_mid_aux av ps _ i hi
+    · intro us hus i hi
+      simp only [List.flatMap_cons, hus, optList]
+      exact getElem?_mid_aux at' us _ i hi
+    · intro ns hns i hi
+      simp only [List.flatMap_cons, hns, optList]
+      exact getElem?_mid_aux an ns _ i hi
+    · have h := poolsAll_aux rest (av ++ optList m.pos) (an ++ optList m.nrm) (at' ++ optList m.uv)
+      have lv : (av ++ optList m.pos).length = av.length + optLen m.pos := by cases m.pos <;> simp [optList, optLen]
+      have ln : (an ++ optList m.nrm).length = an.length + optLen m.nrm := by cases m.nrm <;> simp [optList, optLen]
+      have lt : (at' ++ optList m.uv).length = at'.length + optLen m.uv := by cases m.uv <;> simp [optList, optLen]
+      rw [lv, ln, lt] at h
+      simpa [List.flatMap_cons, List.append_assoc] using h
+
+theorem pool_of_append_aux {τ : Type} (a b : List (Line τ α)) :
+    poolV (a ++ b) = poolV a ++ poolV b ∧ poolN (a ++ b) = poolN a ++ poolN b ∧ poolT (a ++ b) = poolT a ++ poolT b := by
+  induction a with
+  | nil => simp [poolV, poolN, poolT]
+  | cons l a ih =>
+    obtain ⟨h1, h2, h3⟩ := ih
+    cases l <;> simp [poolV, poolN, poolT, h1, h2, h3]
+
+/-- lines that feed no pool -/
+def NoPool {τ : Type} (ls : List (Line τ α)) : Prop := poolV ls = [] ∧ poolN ls = [] ∧ poolT ls = []
+
+theorem noPool_append_aux {τ : Type} {a b : List (Line τ α)} (ha : NoPool a) (hb : NoPool b) : NoPool (a ++ b) := by
+  obtain ⟨h1, h2, h3⟩ := pool_of_append_aux a b
+  exact ⟨by rw [h1, ha.1, hb.1]; rfl, by rw [h2, ha.2.1, hb.2.1]; rfl, by rw [h3, ha.2.2, hb.2.2]; rfl⟩
+
+theorem noPool_faceLines_aux (mk : Nat → Corner) : ∀ ts : List (Nat × Nat × Nat), NoPool (faceLines (α := α) mk ts)
+  | [] => ⟨rfl, rfl, rfl⟩
+  | t :: ts => by
+    obtain ⟨h1, h2, h3⟩ := noPool_faceLines_aux mk ts
+    simp only [faceLines] at h1 h2 h3
+    exact ⟨by simp [faceLines, poolV, h1], by simp [faceLines, poolN, h2], by simp [faceLines, poolT, h3]⟩
+
+theorem noPool_rangeLines_aux (mk : Nat → Corner) : ∀ (mats : List (Option String × Nat)) (ts : List (Nat × Nat × Nat)),
+    NoPool (rangeLines (α := α) mk mats ts)
+  | [], _ => ⟨rfl, rfl, rfl⟩
+  | (m, n) :: ms, ts => by
+    have h := noPool_append_aux (noPool_faceLines_aux (α := α) mk (ts.take n)) (noPool_rangeLines_aux mk ms (ts.drop n))
+    exact ⟨by simp [rangeLines, poolV, h.1], by simp [rangeLines, poolN, h.2.1], by simp [rangeLines, poolT, h.2.2]⟩
+
+theorem noPool_groupLines_aux (multi : Bool) : ∀ (ms : List (String × Mesh α)) (vo to no : Nat),
+    NoPool (groupLines multi vo to no ms)
+  | [], _, _, _ => ⟨rfl, rfl, rfl⟩
+  | (name, m) :: rest, vo, to, no => by
+    have hg : NoPool (gLine (α := α) multi name) := by
+      unfold gLine; split <;> exact ⟨rfl, rfl, rfl⟩
+    have hb : NoPool (bodyLines vo to no m) := by
+      unfold bodyLines; split
+      · exact noPool_faceLines_aux _ _
+      · exact noPool_rangeLines_aux _ _ _
+    simp only [groupLines]
+    exact noPool_append_aux (noPool_append_aux hg hb) (noPool_groupLines_aux multi rest _ _ _)
+
+theorem pool_header_aux (f : String) : NoPool (headerLines (α := α) f) := by
+  unfold headerLines; split <;> exact ⟨rfl, rfl, rfl⟩
+
+theorem pool_data_aux : ∀ ms : List (String × Mesh α),
+    poolV (dataLines ms) = ms.flatMap (fun p => optList p.2.pos) ∧
+    poolN (dataLines ms) = ms.flatMap (fun p => optList p.2.nrm) ∧
+    poolT (dataLines ms) = ms.flatMap (fun p => optList p.2.uv)
+  | [] => ⟨rfl, rfl, rfl⟩
+  | (name, m) :: rest => by
+    have hv : ∀ l : List (V3 α), poolV (l.map (Line.v (τ := Corner))) = l ∧ poolN (l.map (Line.v (τ := Corner))) = [] ∧
+        poolT (l.map (Line.v (τ := Corner))) = [] := by
+      intro l; induction l with
+      | nil => exact ⟨rfl, rfl, rfl⟩
+      | cons a l ih => simp [poolV, poolN, poolT, ih]
+    have hn : ∀ l : List (V3 α), poolV (l.map (Line.vn (τ := Corner))) = [] ∧ poolN (l.map (Line.vn (τ := Corner))) = l ∧
+        poolT (l.map (Line.vn (τ := Corner))) = [] := by
+      intro l; induction l with
+      | nil => exact ⟨rfl, rfl, rfl⟩
+      | cons a l ih => simp [poolV, poolN, poolT, ih]
+    have ht : ∀ l : List (V2 α), poolV (l.map (Line.vt (τ := Corner))) = [] ∧ poolN (l.map (Line.vt (τ := Corner))) = [] ∧
+        poolT (l.map (Line.vt (τ := Corner))) = l := by
+      intro l; induction l with
+      | nil => exact ⟨rfl, rfl, rfl⟩
+      | cons a l ih => simp [poolV, poolN, poolT, ih]
+    obtain ⟨r1, r2, r3⟩ := pool_data_aux rest
+    obtain ⟨a1, a2, a3⟩ := pool_of_append_aux (meshData m) (dataLines rest)
+    obtain ⟨b1, b2, b3⟩ := pool_of_append_aux ((optList m.pos).map (Line.v (τ := Corner)) ++ (optList m.uv).map .vt)
+      ((optList m.nrm).map .vn)
+    obtain ⟨c1, c2, c3⟩ := pool_of_append_aux ((optList m.pos).map (Line.v (τ := Corner))) ((optList m.uv).map .vt)
+    have m1 : poolV (meshData m) = optList m.pos := by
+      unfold meshData; rw [b1, c1, (hv _).1, (ht _).1, (hn _).1]; simp
+    have m2 : poolN (meshData m) = optList m.nrm := by
+      unfold meshData; rw [b2, c2, (hv _).2.1, (ht _).2.1, (hn _).2.1]; simp
+    have m3 : poolT (meshData m) = optList m.uv := by
+      unfold meshData; rw [b3, c3, (hv _).2.2, (ht _).2.2, (hn _).2.2]; simp
+    simp only [dataLines, a1, a2, a3, r1, r2, r3, m1, m2, m3, List.flatMap_cons, and_self]
+
+
+/-- **OBJ round trip, structural part.**  For every non-empty list of named well-formed triangle meshes
+    (any number, any per-mesh combination of uv / normal attributes, any partition of each mesh's triangles
+    into material ranges incl. empty ranges and nil materials, shared / unreferenced vertices; every mesh
+    but the last with at least one triangle) and every material-file name: `WriteMeshes` does not panic, and
+    `ReadMesh` of its output succeeds and returns exactly one group per mesh, in order, with the mesh's
+    name, one triangle per index triple in order whose corners are the tokens `(i+1+vo, i+1+to, i+1+no)` —
+    each pool addressed with ITS OWN running offset — and the mesh's material ranges (`expMats`: a mesh
+    without ranges inherits the material in effect).  The pools of the written text are the concatenated
+    attribute arrays.  Together with `readObj_corners` this pins every corner's position / uv / normal. -/
+theorem obj_roundtrip_struct (matFile : String) (ms : List (String × Mesh α)) (hne : ms ≠ [])
+    (hwf : ∀ p ∈ ms, WFMesh p.2) (hnb : NonemptyButLast ms) :
+    ∃ ls gs, writeObj matFile ms = .ok ls ∧
+      readObj pcId ls = .ok (gs, if matFile = "" then [] else [matFile]) ∧
+      gs.map sumG = expSum 0 0 0 none ms ∧
+      poolV ls = ms.flatMap (fun p => optList p.2.pos) ∧ poolN ls = ms.flatMap (fun p => optList p.2.nrm) ∧
+      poolT ls = ms.flatMap (fun p => optList p.2.uv) := by
+  obtain ⟨⟨name, m⟩, rest, rfl⟩ := List.exists_cons_of_ne_nil hne
+  let multi := decide (((name, m) :: rest).length > 1)
+  have hmulti : rest ≠ [] → multi = true := by
+    intro h; cases rest with
+    | nil => exact absurd rfl h
+    | cons q r => simp [multi]
+  have hw := writeGroups_eq_aux multi ((name, m) :: rest) 0 0 0 hwf
+  -- header
+  let s0 : RState Corner α := { libs := if matFile = "" then [] else [matFile] }
+  have eh : steps pcId ({} : RState Corner α) (headerLines matFile) = .ok s0 := by
+    unfold headerLines
+    by_cases hf : matFile = ""
+    · simp [hf, steps, step, s0]
+    · simp [hf, steps, step, s0]
+  -- data
+  have ed := steps_data_aux ((name, m) :: rest) s0
+  -- the first `g` line (if any) only names the still empty working group
+  let s1 : RState Corner α := { s0 with
+      pv := s0.pv ++ ((name, m) :: rest).flatMap (fun p => optList p.2.pos),
+      pt := s0.pt ++ ((name, m) :: rest).flatMap (fun p => optList p.2.uv),
+      pn := s0.pn ++ ((name, m) :: rest).flatMap (fun p => optList p.2.nrm) }
+  let s2 : RState Corner α := { s1 with cur := { s1.cur with name := name } }
+  have eg : steps pcId s1 (gLine multi name) = .ok s2 := by
+    unfold gLine
+    by_cases hg : (multi || decide (name ≠ "")) = true
+    · rw [if_pos hg]; simp [steps, step, s2, s1, s0]
+    · have : name = "" := by
+        simp only [Bool.or_eq_true, decide_eq_true_eq, not_or, Decidable.not_not] at hg; exact hg.2
+      rw [if_neg hg]; simp [steps, s2, s1, s0, this]
+  have hpools : PoolsAll s2.pv s2.pn s2.pt 0 0 0 ((name, m) :: rest) := by
+    have := poolsAll_aux ((name, m) :: rest) [] [] []
+    simpa [s2, s1, s0] using this
+  obtain ⟨s', eb, hfin, hlibs⟩ := steps_groups_aux multi rest name m s2 0 0 0 (hwf (name, m) (by simp))
+    (fun p hp => hwf p (by simp [hp])) hnb hmulti hpools ⟨rfl, rfl, rfl, rfl⟩ rfl
+  refine ⟨headerLines matFile ++ dataLines ((name, m) :: rest) ++ groupLines multi 0 0 0 ((name, m) :: rest),
+    (finish s').1, ?_, ?_, ?_, ?_⟩
+  · simp only [writeObj, hw, multi]
+  · unfold readObj
+    rw [List.append_assoc, steps_append_aux pcId _ _ _ _ eh, steps_append_aux pcId _ _ _ _ ed]
+    simp only [groupLines, List.append_assoc]
+    rw [steps_append_aux pcId _ _ _ _ eg]
+    rw [eb]
+    simp only [Except.ok.injEq]
+    rw [show finish s' = ((finish s').1, (finish s').2) from rfl, hlibs]
+  · rw [hfin]; simp [s2, s1, s0]
+  · obtain ⟨a1, a2, a3⟩ := pool_of_append_aux (headerLines matFile ++ dataLines ((name, m) :: rest))
+      (groupLines multi 0 0 0 ((name, m) :: rest))
+    obtain ⟨b1, b2, b3⟩ := pool_of_append_aux (headerLines matFile) (dataLines ((name, m) :: rest))
+    obtain ⟨g1, g2, g3⟩ := noPool_groupLines_aux multi ((name, m) :: rest) 0 0 0
+    obtain ⟨h1, h2, h3⟩ := pool_header_aux (α := α) matFile
+    obtain ⟨d1, d2, d3⟩ := pool_data_aux ((name, m) :: rest)
+    exact ⟨by rw [a1, b1, g1, h1, d1]; simp, by rw [a2, b2, g2, h2, d2]; simp, by rw [a3, b3, g3, h3, d3]; simp⟩
+
 end roundtrip
 
 /-! ### the pinned defect: one shared offset for v / vt / vn -/
